@@ -65,4 +65,78 @@ theorem uenum_none_image (tag : LenTy) (ht : tag.Law) (vs : List (List Ty))
         rw [drop_take_eq (a := b1 ++ b0.drop (dOff + n)) (b := b1) (n := n)
           (by rw [List.take_left' hb1l, List.take_of_length_le (by omega)]) (by omega)]
         exact hel i d v P hd hvi hP
+
+/-- the same for a variant whose last field is unsized: the tag, then every sized field at its position (whether or not the last
+field's emplacer succeeded — they are written before it runs) -/
+theorem uenum_some_image (tag : LenTy) (ht : tag.Law) (vs : List (List Ty))
+    (hl : ∀ v ∈ dictLL vs, ∀ d ∈ v, Law d)
+    (idx : Nat) (hidx : idx < vs.length) (vals : List Bytes)
+    (pre : List Ty) (lt : Ty) (hvar : vs.getD idx [] = pre ++ [lt])
+    (hs : AllSized (dictL pre)) (hv : ValsOk (dictL pre) vals) (lasti : Init) (hrec : EmpSpec lt lasti)
+    (s : Slice) (hal : s.addr % (Ty.uenum tag vs).dict.align = 0) (hlen : (Ty.uenum tag vs).dict.minSize ≤ s.len)
+    (o : EO) (ho : emplaceU (.uenum tag vs) (.uenum idx vals (some lasti)) s = .ok o) (hres : o.res = .ok ()) :
+    o.bytes.take tag.size = encLenTy tag idx ∧
+    ∀ (i : Nat) (d : Dict) (v : Bytes) (P : Nat), (dictL pre)[i]? = some d → vals[i]? = some v →
+      (posList (dictL pre) 0)[i]? = some P →
+      (o.bytes.drop (ceilMul tag.size (max tag.align (alignLL (dictLL vs))) + P)).take d.ssize = v := by
+  obtain ⟨addr, bytes⟩ := s
+  simp only [Ty.dict, uenumD, Slice.len] at hal hlen
+  obtain ⟨hapos, hge, htd, hta, hva⟩ := uenum_geometry tag ht (dictLL vs) hl addr bytes.length hal hlen
+  have hidx' : idx < (dictLL vs).length := by rw [dictLL_length]; exact hidx
+  have hmem : (dictLL vs).getD idx [] ∈ dictLL vs := getD_mem _ _ _ hidx'
+  obtain ⟨b0, hb0, hb0l⟩ := writeAt_ok (bs := bytes) (x := encLenTy tag idx) (off := 0) (by rw [encLenTy_length]; omega)
+  have hnl : ¬ bytes.length < ceilMul tag.size (max tag.align (alignLL (dictLL vs))) := by omega
+  have hread := writeAt_read hb0
+  simp only [List.drop_zero, encLenTy_length] at hread
+  simp only [emplaceU, Slice.len, hnl, if_false, hb0, Res.bind_ok] at ho
+  rw [dictLL_getD, hvar, dictL_append] at hmem ho
+  simp only [dictL] at hmem ho
+  have hlv := hl _ hmem
+  have hlpre : ∀ d ∈ dictL pre, Law d := fun d hd => hlv d (by simp [hd])
+  have hllt : Law lt.dict := hlv _ (by simp)
+  have hposv : ∀ x ∈ dictL pre ++ [lt.dict], 0 < x.align := fun x hx => (hlv x hx).align_pow2.pos
+  have hms := minSizeL_append (dictL pre) lt.dict hlpre hs 0
+  have hlp := lastPos_append (dictL pre) lt.dict 0 hposv (headAligned_zero _)
+  have h4 := le_ceilMul (x := foldSize (dictL pre) 0) hllt.align_pow2.pos
+  have hltmod : alignL (dictL pre ++ [lt.dict]) % lt.dict.align = 0 := alignL_mod _ hlv lt.dict (by simp)
+  have hlfomod := ceilMul_mod (foldSize (dictL pre) 0) lt.dict.align
+  have hvA := hva _ hmem
+  have hne : (dictL pre ++ [lt.dict]).isEmpty = false := by cases dictL pre <;> rfl
+  simp only [hne, Bool.false_eq_true, if_false, List.dropLast_concat, List.getLast?_concat, hlp] at ho
+  generalize hal_def : max tag.align (alignLL (dictLL vs)) = al at *
+  generalize hd_def : ceilMul tag.size al = dOff at *
+  generalize hn_def : floorMul (bytes.length - dOff) al = n at *
+  generalize hlfo_def : ceilMul (foldSize (dictL pre) 0) lt.dict.align = lpos at *
+  have hnle : n ≤ bytes.length - dOff := by rw [← hn_def]; exact floorMul_le _ _
+  cases hck : checkAlignMin (alignL (dictL pre ++ [lt.dict])) (minSizeL (dictL pre ++ [lt.dict]) 0) (Slice.take (Slice.drop ⟨addr, bytes⟩ dOff) n) with
+  | fault f => rw [hck] at ho; cases ho
+  | err e => rw [hck] at ho; simp only [Res.ok.injEq] at ho; rw [← ho] at hres; cases hres
+  | ok u =>
+    rw [hck] at ho
+    obtain ⟨_, hmin⟩ := checkAlignMin_ok.1 hck
+    simp only [Slice.len, Slice.take, Slice.drop, List.length_take, List.length_drop] at hmin
+    have hdl : ((b0.drop dOff).take n).length = n := by simp only [List.length_take, List.length_drop, hb0l]; omega
+    obtain ⟨b1, hb1, hb1l, _, _, hel⟩ := writeFields_spec (dictL pre) vals 0 ((b0.drop dOff).take n)
+      (fun d hd => (hlpre d hd).align_pow2.pos) (headAligned_zero _) hv.1 hv.len (by rw [hdl]; omega)
+    rw [hdl] at hb1l
+    have hw : (if (dictL pre).isEmpty then Res.ok ((b0.drop dOff).take n) else writeFields (dictL pre) vals 0 ((b0.drop dOff).take n)) = .ok b1 := by
+      cases hds : dictL pre with
+      | nil => rw [hds] at hb1; simpa [writeFields] using hb1
+      | cons d ds => rw [hds] at hb1; simpa using hb1
+    obtain ⟨ol, hol, hok⟩ := hrec ⟨addr + dOff + lpos, b1.drop lpos⟩ (add_mod_zero (mod_trans hvA hltmod) hlfomod)
+      (by simp only [Slice.len, List.length_drop]; omega)
+    have holl : ol.bytes.length = n - lpos := by have := hok.len; simpa [Slice.len, hb1l] using this
+    simp only [hw, Res.bind_ok, hol, Res.ok.injEq] at ho
+    subst ho
+    constructor
+    · show (b0.take dOff ++ (b1.take lpos ++ ol.bytes) ++ b0.drop (dOff + n)).take tag.size = _
+      rw [List.append_assoc, List.take_append_of_le_length (by simp only [List.length_take]; omega), List.take_take,
+        Nat.min_eq_left htd, hread]
+    · intro i d v P hd hvi hP
+      have hend := posList_end_le (dictL pre) 0 i P d (fun x hx => (hlpre x hx).align_pow2.pos) (headAligned_zero _) hd hP
+      show ((b0.take dOff ++ (b1.take lpos ++ ol.bytes) ++ b0.drop (dOff + n)).drop (dOff + P)).take d.ssize = v
+      rw [List.append_assoc, ← List.drop_drop, List.drop_left' (by simp only [List.length_take]; omega)]
+      rw [drop_take_eq (a := (b1.take lpos ++ ol.bytes) ++ b0.drop (dOff + n)) (b := b1) (n := lpos)
+        (by rw [List.append_assoc, List.take_append_of_le_length (by simp only [List.length_take]; omega), List.take_take, Nat.min_self]) (by omega)]
+      exact hel i d v P hd hvi hP
 end FV
